@@ -80,7 +80,7 @@ func runC30(c *Ctx) {
 		}
 		desc = append(desc, fmt.Sprint(plans[i]))
 	}
-	w := c.NewWorld(simrt.Config{LockYield: true, PreemptPct: 10 + 20*ch.Pick(4, "preempt")})
+	w := c.NewWorld(simrt.Config{LockYield: true, UnlockYield: ch.Bool(50, "unlockyield"), PreemptPct: 10 + 20*ch.Pick(4, "preempt")})
 	ResetStamp()
 	// the constructor gets a scratch copy of the seed that is overwritten right afterwards: the
 	// stream must depend on the seed value at construction, not on the caller's buffer later
